@@ -7,6 +7,12 @@ from ..extract import (HEADER, ExtractError, Tr, ast_dump, body_of, find_ifs, if
 
 NAME = "Poller"
 
+# registry for vlib/gen/pollerskel.py (additive; the generated text does not depend on it):
+#   SITES    (translation unit, clang node id of an `if` condition) -> name of the guard generated from that condition
+# filled by generate(); `_TU[0]` is the translation unit the sites being registered belong to
+SITES = {}
+_TU = [None]
+
 
 def _then_else(ifs):
     ks = kids(ifs)
@@ -48,8 +54,11 @@ def _var_init(docs, name):
 def generate():
     out = [HEADER % "muduo/net/Channel.{h,cc}, poller/EPollPoller.{h,cc}, poller/PollPoller.cc, EventLoop.cc",
            "set_option linter.unusedVariables false\nnamespace MuduoVerif.Gen.Poller\n"]
+    SITES.clear()
 
     def guard(name, params, sym, cond, doc, consts=None):
+        if cond.get("id") is not None:
+            SITES[(_TU[0], cond.get("id"))] = name
         t = Tr(sym, consts or {})
         out.append(prop_def(name, params, unparen(t.expr(cond)), doc))
 
@@ -59,6 +68,7 @@ def generate():
         out.append("/-- %s -/\ndef %s %s : %s := %s\n" % (doc, name, ps, rty, unparen(t.expr(e))))
 
     # ------------------------------------------------------------------ Channel: interest arithmetic
+    _TU[0] = "muduo/net/Channel.cc"
     cdocs = ast_dump("muduo/net/Channel.cc", "muduo::net::Channel")
     kc = {"kNoneEvent": "kNoneEvent", "kReadEvent": "kReadEvent", "kWriteEvent": "kWriteEvent"}
     for k in ("kNoneEvent", "kReadEvent", "kWriteEvent"):
@@ -113,6 +123,7 @@ def generate():
         body = unparen(t.expr(if_cond(j)))
         if not (t.used - {cbs[nm] + ".operator bool()"}):
             raise ExtractError("handleEventWithGuard: %s is no longer guarded by the channel's current interest" % cbs[nm])
+        SITES[(_TU[0], if_cond(j).get("id"))] = gnames[nm]
         out.append(prop_def(gnames[nm], [("events", "Nat")], body,
                             "`Channel::handleEventWithGuard`: the test of the channel's *current* interest before `%s` "
                             "(the callback itself is installed: `True`)" % cbs[nm]))
@@ -123,6 +134,7 @@ def generate():
     ke = {"kNew": "kNew", "kAdded": "kAdded", "kDeleted": "kDeleted"}
     for k in ("kNew", "kAdded", "kDeleted"):
         out.append("/-- `EPollPoller.cc`: `%s` -/\ndef %s : Int := %s\n" % (k, k, unparen(Tr({}).expr(_var_init(edocs, k)))))
+    _TU[0] = "muduo/net/poller/EPollPoller.cc"
     pdocs = ast_dump("muduo/net/poller/EPollPoller.cc", "muduo::net::EPollPoller")
     out.append("/-- `EPollPoller::kInitEventListSize` -/\ndef kInitEventListSize : Nat := %s\n"
                % unparen(Tr({}).expr(_var_init(pdocs, "kInitEventListSize"))))
@@ -213,6 +225,7 @@ def generate():
         raise ExtractError("EPollPoller::poll: fillActiveChannels is no longer called when numEvents > 0")
 
     # ------------------------------------------------------------------ PollPoller
+    _TU[0] = "muduo/net/poller/PollPoller.cc"
     qdocs = ast_dump("muduo/net/poller/PollPoller.cc", "muduo::net::PollPoller")
     pu = the_function(qdocs, "updateChannel")
     symp = {"channel.index()": "index", "channel.isNoneEvent()": "(isNoneEvent events)", "channel.fd()": "fd",
